@@ -299,7 +299,7 @@ class Profile:
         self.for_list = True
         self.ifexp_call_in_else = False
         self.global_writes = True
-        self.max_stmts = 6
+        self.max_stmts = 5
         self.max_depth = 2
         self.__dict__.update(kw)
 
@@ -451,8 +451,9 @@ class Gen:
                 return ("call", f.name, [self.expr(sc, depth - 1, False) for _ in range(f.nparams)])
         if c == 20 and self.pf.user_stack:
             self.P.features.add("stack_index")
-            return ("memget", ("num", r.randint(0, 40)) if r.random() < 0.6 else
-                    ("bin", "%", ("intr1", "abs", ("intr1", "floor", self.simple(sc))), ("num", 40)))
+            # addresses 100..139: away from both calling conventions (sp-relative pushes, slots 511-..)
+            return ("memget", ("num", r.randint(100, 139)) if r.random() < 0.6 else
+                    ("bin", "+", ("bin", "%", ("intr1", "abs", ("intr1", "floor", self.simple(sc))), ("num", 40)), ("num", 100)))
         return self.read(sc, depth)
 
     def nonconst(self, e):
@@ -536,7 +537,7 @@ class Gen:
             if writable and r.random() < 0.5:
                 v = r.choice(writable)
             else:
-                if fn is None and len(self.P.globals) >= 4:
+                if fn is None and len(self.P.globals) >= 3:
                     if not writable:
                         return [self.effect(sc)]
                     v = r.choice(writable)
@@ -625,7 +626,7 @@ class Gen:
             return [("expr", ("call", f.name, [self.expr(sc, 2, False) for _ in range(f.nparams)]))]
         if c == 28 and self.pf.user_stack:
             self.P.features.add("stack_index")
-            return [("memput", ("num", r.randint(0, 40)), self.expr(sc, 2))]
+            return [("memput", ("num", r.randint(100, 139)), self.expr(sc, 2))]
         if c == 29 and self.pf.user_stack and not sc["callable"] and fn is None and not in_listloop:
             # balanced push/pop in code without calls
             self.P.features.add("push_pop")
@@ -657,7 +658,7 @@ class Gen:
             sc["frozen"].discard(g)
             self.P.features.add("global_write")
         f.returns_value = r.random() < 0.6
-        body = self.block(sc, r.randint(1, 4), 2)
+        body = self.block(sc, r.randint(1, 3), 1)
         if f.returns_value:
             if r.random() < 0.4:
                 # early return inside a branch
